@@ -168,7 +168,13 @@ func isSkipFieldLoad(v ssa.Value) bool {
 		return false
 	}
 	_, _, f := fieldNameOf(ld.X)
-	return f == "SkipSchemaValidation"
+	return isSkipFieldName(f)
+}
+
+// isSkipFieldName: the skip-schema-validation option under the names it goes by (the exported action
+// fields are called SkipSchemaValidation; unexported option structs may abbreviate).
+func isSkipFieldName(f string) bool {
+	return strings.Contains(strings.ToLower(f), "skipschema")
 }
 
 func c14SkipWiring(w *World, r *Report, gate *ssa.Function) {
@@ -235,7 +241,7 @@ func c14SkipWiring(w *World, r *Report, gate *ssa.Function) {
 				if !ok {
 					continue
 				}
-				if _, _, f := fieldNameOf(st.Addr); f != "SkipSchemaValidation" {
+				if _, _, f := fieldNameOf(st.Addr); !isSkipFieldName(f) {
 					continue
 				}
 				v := st.Val
